@@ -20,7 +20,7 @@ SS == INSTANCE SyncServe WITH
         Backend <- "bolt", Buf <- 1, Remap <- FALSE, Faults <- {}, MaxFaults <- 0,
         head <- 0, lo <- 0, wr <- 0, lockW <- 0, cbs <- 0, ch <- 0, q <- 0, wk <- 0, item <- 0, pc <- 0,
         from <- 0, cur <- 0, snap <- 0, pos <- 0, sent <- 0, phase <- 0, cons <- 0, ctxd <- 0, err <- 0,
-        why <- 0, nfault <- 0, due <- 0
+        why <- 0, nfault <- 0, due <- 0, dispd <- 0
 
 TraceLog == ndJsonDeserialize("trace.ndjson")
 
@@ -40,7 +40,7 @@ Pos(seq, v) == IF \E i \in DOMAIN seq : seq[i] = v THEN CHOOSE i \in DOMAIN seq 
 Count(seq, v) == Cardinality({i \in DOMAIN seq : seq[i] = v})
 Has(e, f) == f \in DOMAIN e
 
-G0 == [head |-> 0, phead |-> 0, lo |-> 0, dig |-> EmptyFn, pend |-> EmptyFn, reg |-> EmptyFn, dpos |-> EmptyFn, ppos |-> EmptyFn, dset |-> EmptyFn,
+G0 == [wcan |-> {}, head |-> 0, phead |-> 0, lo |-> 0, dig |-> EmptyFn, pend |-> EmptyFn, reg |-> EmptyFn, dpos |-> EmptyFn, ppos |-> EmptyFn, dset |-> EmptyFn,
        q |-> 0, backend |-> "bolt", gated |-> FALSE, buf |-> 0, wedged |-> FALSE]
 
 NewStream(f, a, h) ==
@@ -199,7 +199,15 @@ StepPutDone(e) ==
                                                     !.overflow = IF ss[s].disp >= ss[s].taken + g.q THEN @ \cup {e.r} ELSE @]
                                   ELSE ss[s]]
   /\ g' = [g EXCEPT !.wedged = FALSE, !.ppos = Upd(g.ppos, e.r, l)]
-  /\ alarms' = alarms \cup (IF e.res # "ok" THEN {Alarm("Conformance", e, "store", "Put returned an error")} ELSE {})
+  \* the Put returned: a beacon that is in the store must have been dispatched (whatever its context)
+  /\ alarms' = alarms
+       \cup (IF e.r > 0 /\ e.r \in DOMAIN g.dig /\ e.r \notin DOMAIN g.dpos
+               THEN {Alarm("StoredButNeverDispatched", e,
+                           IF e.r \in g.wcan THEN "writer-context-cancelled" ELSE "other",
+                           "the beacon is stored (head advanced) but was not handed to the registered callbacks")}
+               ELSE {})
+       \cup (IF e.res = "canceled" /\ e.r \notin DOMAIN g.dig THEN {} ELSE
+            IF e.res # "ok" THEN {Alarm("Conformance", e, "store", "Put returned an error")} ELSE {})
   /\ scen' = scen
 
 \* the Put did not return although the harness holds none of its gates
@@ -291,6 +299,11 @@ StepPutCall(e) ==
   /\ g' = [g EXCEPT !.pend = Upd(g.pend, e.r, e.dg), !.phead = IF e.r > @ THEN e.r ELSE @]
   /\ UNCHANGED <<ss, alarms, scen>>
 
+StepWCancel(e) ==
+  /\ e.ev = "WCancel"
+  /\ g' = [g EXCEPT !.wcan = @ \cup {e.r}]
+  /\ UNCHANGED <<ss, alarms, scen>>
+
 \* events that carry no information for this module
 StepOther(e) ==
   /\ \/ e.ev \in {"Registered"} /\ ~Known(e)
@@ -303,7 +316,7 @@ TraceNext ==
        \/ StepReset(e) \/ StepOpen(e) \/ StepBeforeScan(e) \/ StepSendEnter(e) \/ StepSend(e) \/ StepAfterScan(e)
        \/ StepCbAdd(e) \/ StepRegistered(e) \/ StepCbRemove(e) \/ StepStored(e) \/ StepDispatch(e) \/ StepPutDone(e)
        \/ StepPutBlocked(e) \/ StepStreamBlocked(e) \/ StepFault(e) \/ StepEnd(e) \/ StepDiverged(e)
-       \/ StepQuiesce(e) \/ StepPutCall(e) \/ StepOther(e)
+       \/ StepQuiesce(e) \/ StepPutCall(e) \/ StepWCancel(e) \/ StepOther(e)
   /\ l' = l + 1
 
 TraceSpec == TraceInit /\ [][TraceNext]_tvars
